@@ -30,6 +30,10 @@ func runC12(c *Ctx, tier string) {
 	c12Types(c, r, cs)
 	c12Meta(c, r, cs)
 	c12Registry(c, r)
+	// "a known source": the library's own source parser maps every declared constant
+	// to itself, so a source a registered lint carries can be named (C13's rule,
+	// evaluated here as well)
+	sourceSwitches(c, r, "source-exhaustive", false)
 	r.Finish()
 }
 
@@ -126,6 +130,40 @@ func lintInterfaces(c *Ctx) map[string]*types.Interface {
 		out[n] = c.Named("lint", n).Underlying().(*types.Interface)
 	}
 	return out
+}
+
+// sfCtx: the loaded program (set by Load) for helpers that have no Ctx at hand.
+var sfCtx *Ctx
+
+// isLintBodyIface: t is one of the three lint interfaces or an interface they
+// implement that has the rule-body method Execute(...) *lint.LintResult (e.g. a
+// generic lintBody[T] introduced to share the life-cycle between the kinds).
+func isLintBodyIface(c *Ctx, t types.Type) bool {
+	if c == nil {
+		return false
+	}
+	it, ok := t.Underlying().(*types.Interface)
+	if !ok {
+		return false
+	}
+	hasExec := false
+	for i := 0; i < it.NumMethods(); i++ {
+		m := it.Method(i)
+		if m.Name() == "Execute" {
+			if res := m.Type().(*types.Signature).Results(); res.Len() == 1 && strings.HasSuffix(res.At(0).Type().String(), "lint.LintResult") {
+				hasExec = true
+			}
+		}
+	}
+	if !hasExec {
+		return false
+	}
+	for _, li := range lintInterfaces(c) {
+		if types.Identical(it, li) || types.Implements(li, it) {
+			return true
+		}
+	}
+	return false
 }
 
 func c12Types(c *Ctx, r *Report, cs *Census) {
